@@ -58,6 +58,7 @@ type vCfg struct {
 	pipes []vPipe
 	conns  map[int]uint16 // connector id -> requested support matrix, bit (E*4+R)
 	stable map[int]bool   // connector id -> factory built with the stable connector.NewFactory (no xconnector.Factory)
+	nofac  map[int]bool   // connector id -> configured, but no factory is registered for its type
 	order  []int          // connector ids in generation order (for printing)
 	// plain receivers / processors / exporters with an odd id come from the stable receiver/processor/exporter
 	// NewFactory (three signals; only chosen when no profiles pipeline exists)
@@ -71,6 +72,9 @@ func (c *vCfg) isConn(id int) bool { _, ok := c.conns[id]; return ok }
 // what the connector's factory can carry: the requested pairs; a factory made with connector.NewFactory has no
 // profiles pairs at all
 func (c *vCfg) supp(k, e, r int) bool {
+	if c.nofac[k] {
+		return false
+	}
 	if c.stable[k] && (e == 3 || r == 3) {
 		return false
 	}
@@ -162,6 +166,9 @@ func vConnType(m uint16, stable bool) component.Type {
 	return component.MustNewType(fmt.Sprintf("vconn_%04x", m))
 }
 
+
+// a connector type for which no factory is registered (the type carries the model id: the message names only the type)
+func vNoFacType(k int) component.Type { return component.MustNewType(fmt.Sprintf("vnofac_%d", k)) }
 
 func vCID(t component.Type, id int) component.ID { return component.MustNewIDWithName(t.String(), vName(id)) }
 
@@ -584,6 +591,7 @@ type vObs struct {
 	delivF     map[vNodeKey][]vDelivery // fault pass: some components refuse
 	errF       map[vNodeKey]bool        // fault pass: did the receiver get an error back
 	refusing   []vNodeKey
+	nilHostRejected bool
 	problems   [][2]string // (oracle kind, detail) found while observing
 	routers    map[vNodeKey][]string
 	routerPIDs map[vNodeKey][][2]int
@@ -593,6 +601,9 @@ type vObs struct {
 var (
 	vReUnsup = regexp.MustCompile(`^connector "(?i:vconn)_[0-9a-fA-F]+/([^"]+)" used as (exporter|receiver) in \[([^\]]*)\] pipeline but not used in any supported (receiver|exporter) pipeline$`)
 	vReConn  = regexp.MustCompile(`^connector "(?i:vconn)_[0-9a-fA-F]+/([^"]+)" \((\w+) to (\w+)\)$`)
+	vReNoFac = regexp.MustCompile(`^connector factory not available for: "vnofac_(\d+)"$`)
+	vReFacRE = regexp.MustCompile(`^failed to create "(?i:v(recv|exp))/([^"]+)" (?:receiver|exporter) for data type "(\w+)": `)
+	vReFacP  = regexp.MustCompile(`^failed to create "(?i:vproc)/([^"]+)" processor, in pipeline "([^"]+)": `)
 	vReProc  = regexp.MustCompile(`^processor "(?i:vproc)/([^"]+)" in pipeline "([^"]+)"$`)
 )
 
@@ -624,12 +635,19 @@ func vRun(cfg *vCfg) (obs *vObs) {
 	cc := map[component.ID]component.Config{}
 	cf := map[component.Type]connector.Factory{}
 	for k, m := range cfg.conns {
+		if cfg.nofac[k] {
+			cc[vCID(vNoFacType(k), k)] = vDefCfg()
+			continue
+		}
 		f := vConnFactory(m, cfg.stable[k])
 		cf[f.Type()] = f
 		cc[vCID(f.Type(), k)] = vDefCfg()
 	}
 	ref := func(id int, t component.Type, m map[component.ID]component.Config) component.ID {
 		if mm, ok := cfg.conns[id]; ok {
+			if cfg.nofac[id] {
+				return vCID(vNoFacType(id), id)
+			}
 			return vCID(vConnType(mm, cfg.stable[id]), id)
 		}
 		if cfg.stablePlain && id%2 == 1 {
@@ -712,6 +730,37 @@ func vRun(cfg *vCfg) (obs *vObs) {
 					obs.detail = append(obs.detail, vNodeKey{9, 0, 0, 0})
 				}
 			}
+		case vReFacRE.MatchString(obs.errText) || vReFacP.MatchString(obs.errText):
+			// a component factory refused its signal during buildComponents: earlier components exist already
+			obs.class = 5
+			if m := vReFacRE.FindStringSubmatch(obs.errText); m != nil {
+				kind := 0
+				if strings.EqualFold(m[1], "exp") {
+					kind = 2
+				}
+				obs.detail = []vNodeKey{{kind, vSigByName(m[3]), 0, vNum(m[2])}}
+			} else {
+				m := vReFacP.FindStringSubmatch(obs.errText)
+				ps, pn := vPIDParse(m[2])
+				obs.detail = []vNodeKey{{1, ps, pn, vNum(m[1])}}
+			}
+			obs.created = nil
+			if g != nil {
+				partial := vKeysOfInstances(g, reg)
+				for _, c := range reg.comps {
+					if k, ok := partial[c.serial]; ok {
+						obs.created = append(obs.created, k)
+					} else {
+						obs.created = append(obs.created, vNodeKey{c.kind, c.sigIn, 77, c.id})
+					}
+				}
+			} else {
+				obs.created = vFactoryKeys(reg)
+			}
+		case vReNoFac.MatchString(obs.errText):
+			obs.class = 1
+			k, _ := strconv.Atoi(vReNoFac.FindStringSubmatch(obs.errText)[1])
+			obs.detail = []vNodeKey{{2, 0, 0, k}}
 		case vReUnsup.MatchString(obs.errText):
 			obs.class = 1
 			m := vReUnsup.FindStringSubmatch(obs.errText)
@@ -793,6 +842,17 @@ func vRun(cfg *vCfg) (obs *vObs) {
 			}
 			sort.Strings(ids)
 			obs.routers[k] = ids
+		}
+	}
+	// StartAll without a host is refused before anything is touched
+	obs.nilHostRejected = g.StartAll(context.Background(), nil) != nil
+	if !obs.nilHostRejected {
+		obs.problems = append(obs.problems, [2]string{"nil-host-accepted", "StartAll(ctx, nil) returned no error"})
+	}
+	for _, c := range reg.comps {
+		if c.started != 0 {
+			obs.problems = append(obs.problems, [2]string{"started-without-host", fmt.Sprintf("instance %d kind %d id %d", c.serial, c.kind, c.id)})
+			c.started = 0
 		}
 	}
 	// start, as the service does after a successful build
@@ -886,6 +946,36 @@ func vRun(cfg *vCfg) (obs *vObs) {
 func vRefuses(seed uint64, k vNodeKey) bool {
 	r := &vRand{s: seed ^ uint64(k.kind*1000003+k.a*10007+k.b*101+k.id)*0x9E3779B97F4A7C15}
 	return r.Intn(100) < 20
+}
+
+// vKeysOfInstances: instance serial -> node key, read from the (possibly partially built) graph
+func vKeysOfInstances(g *Graph, reg *vReg) map[int]vNodeKey {
+	res := map[int]vNodeKey{}
+	nodes := g.componentGraph.Nodes()
+	for nodes.Next() {
+		var key vNodeKey
+		var comp component.Component
+		switch n := nodes.Node().(type) {
+		case *receiverNode:
+			key, comp = vNodeKey{0, vSigIdx(n.pipelineType), 0, vIDNum(n.componentID)}, n.Component
+		case *processorNode:
+			s, nm := vPIDParse(n.pipelineID.String())
+			key, comp = vNodeKey{1, s, nm, vIDNum(n.componentID)}, n.Component
+		case *exporterNode:
+			key, comp = vNodeKey{2, vSigIdx(n.pipelineType), 0, vIDNum(n.componentID)}, n.Component
+		case *connectorNode:
+			key, comp = vNodeKey{3, vSigIdx(n.exprPipelineType), vSigIdx(n.rcvrPipelineType), vIDNum(n.componentID)}, n.Component
+		default:
+			continue
+		}
+		if comp == nil {
+			continue
+		}
+		if vc := vUnwrap(comp); vc != nil && vc.reg == reg {
+			res[vc.serial] = key
+		}
+	}
+	return res
 }
 
 func vFactoryKeys(reg *vReg) []vNodeKey {
@@ -1004,6 +1094,29 @@ func vOracle(cfg *vCfg) *vExpect {
 	}
 	if ex.class == 0 && cyc {
 		ex.class = 2
+	}
+	// plain components from stable factories cannot be created for the profiles signal
+	if ex.class == 0 && cfg.stablePlain {
+		for _, p := range cfg.pipes {
+			if p.sig != 3 {
+				continue
+			}
+			for _, r := range p.recv {
+				if !cfg.isConn(r) && r%2 == 1 {
+					ex.class = 5
+				}
+			}
+			for _, x := range p.procs {
+				if x%2 == 1 {
+					ex.class = 5
+				}
+			}
+			for _, e := range p.exps {
+				if !cfg.isConn(e) && e%2 == 1 {
+					ex.class = 5
+				}
+			}
+		}
 	}
 	if ex.class != 0 {
 		return ex
@@ -1150,11 +1263,23 @@ func vCompare(out *vOut, term string, cfg *vCfg, obs *vObs, ex *vExpect) {
 	switch obs.class {
 	case 1:
 		d := obs.detail[0]
+		if d.kind == 2 { // "connector factory not available": must be a listed connector without factory
+			listed := false
+			for _, p := range cfg.pipes {
+				if vHas(p.recv, d.id) || vHas(p.exps, d.id) {
+					listed = true
+				}
+			}
+			if !cfg.nofac[d.id] || !listed {
+				out.Oracle("error-names-wrong-use", term, obs.errText)
+			}
+			break
+		}
 		bad := ex.badExp
 		if d.kind == 1 {
 			bad = ex.badRecv
 		}
-		if !bad[[2]int{d.id, d.a}] {
+		if !bad[[2]int{d.id, d.a}] || cfg.nofac[d.id] {
 			out.Oracle("error-names-wrong-use", term, obs.errText)
 		}
 	case 2:
@@ -1184,6 +1309,18 @@ func vCompare(out *vOut, term string, cfg *vCfg, obs *vObs, ex *vExpect) {
 				out.Oracle("cycle-message-shape", term, obs.errText)
 			}
 		}
+	}
+	if obs.class == 5 {
+		d := obs.detail[0]
+		if !(cfg.stablePlain && d.a == 3 && d.id%2 == 1 && d.kind <= 2) {
+			out.Oracle("error-names-wrong-use", term, obs.errText)
+		}
+		for _, k := range obs.created { // what was created before the refusal must itself be creatable
+			if k.b == 77 || (cfg.stablePlain && k.kind <= 2 && k.a == 3 && k.id%2 == 1) {
+				out.Oracle("created-despite-error", term, fmt.Sprintf("instance %s exists after %q", k, obs.errText))
+			}
+		}
+		return
 	}
 	if obs.class != 0 {
 		if len(obs.created) != 0 {
@@ -1272,7 +1409,11 @@ func vTerm(cfg *vCfg, obs *vObs) string {
 				}
 			}
 		}
-		cs = append(cs, vPair(vNat(k), vPair(vBool(!cfg.stable[k]), vList(pairs))))
+		if cfg.nofac[k] {
+			cs = append(cs, vPair(vNat(k), "None"))
+			continue
+		}
+		cs = append(cs, vPair(vNat(k), "Some "+vPair(vBool(!cfg.stable[k]), vList(pairs))))
 	}
 	var ds, dsro, dsf, errs []string
 	rks := append([]vNodeKey(nil), obs.recvs...)
@@ -1292,6 +1433,31 @@ func vTerm(cfg *vCfg, obs *vObs) string {
 		ds = append(ds, vPair(rk.term(), vList(xs)))
 		dsro = append(dsro, vPair(rk.term(), vList(ys)))
 	}
+	var np []string
+	if cfg.stablePlain {
+		seen := map[[2]int]bool{}
+		add := func(kind, id int) {
+			if id%2 == 1 && !seen[[2]int{kind, id}] {
+				seen[[2]int{kind, id}] = true
+				np = append(np, vPair(vNat(kind), vNat(id)))
+			}
+		}
+		for _, p := range cfg.pipes {
+			for _, r := range p.recv {
+				if !cfg.isConn(r) {
+					add(0, r)
+				}
+			}
+			for _, x := range p.procs {
+				add(1, x)
+			}
+			for _, e := range p.exps {
+				if !cfg.isConn(e) {
+					add(2, e)
+				}
+			}
+		}
+	}
 	var rs []string
 	for _, ck := range obs.connKeys {
 		var ids []string
@@ -1301,13 +1467,13 @@ func vTerm(cfg *vCfg, obs *vObs) string {
 		rs = append(rs, vPair(ck.term(), vList(ids)))
 	}
 	cls := obs.class
-	return vPair(vPair(vList(ps), vList(cs)),
-		vPair(vBool(obs.validateOK), vPair(vNat(cls), vPair(vKeys(obs.detail), vPair(vKeys(obs.created), vPair(vKeys(obs.started), vPair(vList(ds), vPair(vList(dsro), vPair(vList(rs), vPair(vKeys(obs.refusing), vPair(vList(dsf), vList(errs))))))))))))
+	return vPair(vPair(vList(ps), vPair(vList(cs), vList(np))),
+		vPair(vBool(obs.validateOK), vPair(vNat(cls), vPair(vKeys(obs.detail), vPair(vKeys(obs.created), vPair(vKeys(obs.started), vPair(vList(ds), vPair(vList(dsro), vPair(vList(rs), vPair(vKeys(obs.refusing), vPair(vList(dsf), vPair(vList(errs), vBool(obs.nilHostRejected)))))))))))))
 }
 
 // ---- generator -----------------------------------------------------------------------------------------
 func vGen(rng *vRand, out *vOut) *vCfg {
-	cfg := &vCfg{conns: map[int]uint16{}, stable: map[int]bool{}}
+	cfg := &vCfg{conns: map[int]uint16{}, stable: map[int]bool{}, nofac: map[int]bool{}}
 	np := 1 + rng.Pick(10, 20, 25, 20, 15, 10)
 	nsig := 1 + rng.Pick(35, 35, 20, 10) // how many signals are in play
 	sigs := []int{0, 1, 2, 3}
@@ -1375,6 +1541,9 @@ func vGen(rng *vRand, out *vOut) *vCfg {
 			cfg.stable[k] = rng.Intn(100) < 50
 		}
 		cfg.order = append(cfg.order, k)
+		if rng.Intn(100) < 4 {
+			cfg.nofac[k] = true // configured, factory missing
+		}
 		nl := 1 + rng.Pick(55, 30, 15)
 		for l := 0; l < nl; l++ {
 			i, j := rng.Intn(np), rng.Intn(np)
@@ -1460,7 +1629,7 @@ func vGen(rng *vRand, out *vOut) *vCfg {
 			hasProfiles = true
 		}
 	}
-	cfg.stablePlain = !hasProfiles && rng.Bool()
+	cfg.stablePlain = (!hasProfiles && rng.Bool()) || (hasProfiles && rng.Intn(100) < 20)
 	cfg.scheme = rng.Pick(30, 40, 15, 15)
 	cfg.failSeed = rng.U64()
 	// invalid configurations (rejected by Validate; Build is still exercised)
@@ -1486,6 +1655,10 @@ func vStats(out *vOut, cfg *vCfg, obs *vObs) {
 		out.Stat("validate_rejects", 1)
 	}
 	for _, k := range cfg.order {
+		if cfg.nofac[k] {
+			out.Stat("connectors_without_factory", 1)
+			continue
+		}
 		if cfg.stable[k] {
 			out.Stat("connectors_from_stable_factory", 1)
 		} else {
